@@ -59,7 +59,7 @@ Definition opt_state flt hist sent tr w : sys :=
   {| s_par := mkp None None tr w; s_child := c; s_c2p := out |}.
 
 Lemma iter_eval flt hist sent tr w v rf rg :
-  wf_tensor v = true ->
+  wf_tensor v = true -> dead_waiting flt sent = None ->
   iter ev s flt cfg x0 (Tick true true)
        {| s_par := mkp None None tr w; s_child := CWaiting (POpt cfg x0 hist) (REval v rf rg) sent;
           s_c2p := Some (enc_request (REval v rf rg)) |} =
@@ -76,12 +76,13 @@ Lemma iter_eval flt hist sent tr w v rf rg :
                       s_child := CKilled sigterm; s_c2p := None |}
   end.
 Proof.
-  intros W.
+  intros W DW.
   unfold iter, read_part, write_part, handle. cbn [s_child running s_par p_answer mkp s_c2p p_exn p_trace p_wire].
   rewrite (lossless_request (REval v rf rg) W).
   pose proof (ev_wf (List.length tr) v rf rg) as EW.
   destruct (ev (List.length tr) v rf rg) as [res eff]. cbn [fst] in EW.
-  destruct res as [f g | c | cls]; cbn [p_answer p_exn p_trace p_wire s_par s_child s_c2p terminate].
+  destruct res as [f g | c | cls]; cbn [p_answer p_exn p_trace p_wire s_par s_child s_c2p terminate pipe_broken];
+    rewrite DW; cbn [p_answer p_exn p_trace p_wire s_par s_child s_c2p terminate].
   - unfold child_recv. rewrite (lossless_answer (REval v rf rg) (AResult f g) eq_refl EW).
     unfold opt_state, mkp, mkx. destruct (child_optimize flt s cfg x0 (hist ++ [(f, g)]) sent) as [c out]. reflexivity.
   - reflexivity.
@@ -89,6 +90,7 @@ Proof.
 Qed.
 
 Lemma iter_error flt sent tr w m :
+  dead_waiting flt sent = None ->
   iter ev s flt cfg x0 (Tick true true)
        {| s_par := mkp None None tr w; s_child := CWaiting PError (RError m) sent;
           s_c2p := Some (enc_request (RError m)) |} =
@@ -96,9 +98,15 @@ Lemma iter_error flt sent tr w m :
        {| s_par := mkp None (Some (ExOptimizer m)) tr
                        ((w ++ [WR (enc_request (RError m))]) ++ [WW (enc_answer AAbort)]);
           s_child := CKilled sigterm; s_c2p := None |}.
-Proof. reflexivity. Qed.
+Proof.
+  intros DW. unfold iter, read_part, write_part, handle.
+  cbn [s_child running s_par p_answer mkp s_c2p p_exn p_trace p_wire].
+  rewrite (lossless_request (RError m) eq_refl).
+  cbn [p_answer p_exn p_trace p_wire s_par s_child s_c2p pipe_broken]. rewrite DW. reflexivity.
+Qed.
 
 Lemma iter_config flt sent tr w :
+  dead_waiting flt sent = None ->
   iter ev s flt cfg x0 (Tick true true)
        {| s_par := mkp None None tr w; s_child := CWaiting PConfig RConfig sent;
           s_c2p := Some (enc_request RConfig) |} =
@@ -106,26 +114,58 @@ Lemma iter_config flt sent tr w :
   Continue {| s_par := mkp None None tr ((w ++ [WR (enc_request RConfig)]) ++ [WW (enc_answer (AConfig cfg))]);
               s_child := c; s_c2p := out |}.
 Proof.
-  unfold iter, read_part, write_part, handle.
+  intros DW. unfold iter, read_part, write_part, handle.
   cbn [s_child running s_par p_answer mkp s_c2p p_exn p_trace p_wire].
   rewrite (lossless_request RConfig eq_refl).
+  cbn [p_answer p_exn p_trace p_wire s_par s_child s_c2p pipe_broken]. rewrite DW.
   cbn [p_answer p_exn p_trace p_wire s_par s_child s_c2p].
   unfold child_recv. rewrite (lossless_answer RConfig (AConfig cfg) eq_refl eq_refl).
   destruct (child_send flt (PInitial cfg) RInitial sent) as [c out]. reflexivity.
 Qed.
 
 Lemma iter_initial flt sent tr w :
+  dead_waiting flt sent = None ->
   iter ev s flt cfg x0 (Tick true true)
        {| s_par := mkp None None tr w; s_child := CWaiting (PInitial cfg) RInitial sent;
           s_c2p := Some (enc_request RInitial) |} =
   Continue (opt_state flt [] sent tr ((w ++ [WR (enc_request RInitial)]) ++ [WW (enc_answer (AInitial x0))])).
 Proof.
-  unfold iter, read_part, write_part, handle.
+  intros DW. unfold iter, read_part, write_part, handle.
   cbn [s_child running s_par p_answer mkp s_c2p p_exn p_trace p_wire].
   rewrite (lossless_request RInitial eq_refl).
+  cbn [p_answer p_exn p_trace p_wire s_par s_child s_c2p pipe_broken]. rewrite DW.
   cbn [p_answer p_exn p_trace p_wire s_par s_child s_c2p].
   unfold child_recv. rewrite (lossless_answer RInitial (AInitial x0) eq_refl eq_refl).
   unfold opt_state. destruct (child_optimize flt s cfg x0 [] sent) as [c out]. reflexivity.
+Qed.
+
+(* the child was killed while it waited for the answer to the request the parent reads in this pass: the
+   request is handled (a callback is made for an evaluation request), then the write fails *)
+Lemma iter_waiting_dead flt ph req sent sg tr w :
+  wf_request req = true -> dead_waiting flt sent = Some sg ->
+  exists p', (iter ev s flt cfg x0 (Tick true true)
+       {| s_par := mkp None None tr w; s_child := CWaiting ph req sent; s_c2p := Some (enc_request req) |} =
+     Done (Raise ExPipe) {| s_par := p'; s_child := CKilled sg; s_c2p := None |}) /\
+     (p' = handle ev cfg x0 (mkp None None tr w) (enc_request req)) /\
+     (p_trace p' = tr \/
+      exists v rf rg, req = REval v rf rg /\
+        p_trace p' = tr ++ [mkx v rf rg (fst (ev (List.length tr) v rf rg)) (snd (ev (List.length tr) v rf rg))]).
+Proof.
+  intros W DW. eexists. split; [|split; [reflexivity|]].
+  - unfold iter, read_part, write_part. cbn [s_child running s_par p_answer mkp s_c2p].
+    assert (A : exists a, p_answer (handle ev cfg x0 (mkp None None tr w) (enc_request req)) = Some a).
+    { unfold handle. rewrite (lossless_request req W). destruct req as [| | v rf rg | m]; cbn [mkp p_answer p_exn p_trace p_wire].
+      - eexists; reflexivity.
+      - eexists; reflexivity.
+      - destruct (ev (List.length tr) v rf rg) as [res eff]. destruct res; eexists; reflexivity.
+      - eexists; reflexivity. }
+    destruct A as [a A]. rewrite A. cbn [s_child pipe_broken]. rewrite DW. reflexivity.
+  - unfold handle. rewrite (lossless_request req W). destruct req as [| | v rf rg | m]; cbn [mkp p_answer p_exn p_trace p_wire].
+    + left; reflexivity.
+    + left; reflexivity.
+    + right. exists v, rf, rg. split; [reflexivity|].
+      destruct (ev (List.length tr) v rf rg) as [res eff]. destruct res; reflexivity.
+    + left; reflexivity.
 Qed.
 
 Lemma iter_dead flt t st :
@@ -145,12 +185,22 @@ Lemma child_send_cases flt ph req sent : abnormal flt ->
   child_send flt ph req sent = (CWaiting ph req (S sent), Some (enc_request req)) \/
   exists c, child_send flt ph req sent = (c, None) /\ running c = false /\ returncode c <> 0%Z.
 Proof.
-  intros A. destruct flt as [| k | k code]; cbn.
+  intros A. unfold child_send. destruct flt as [| k sg | k sg | k sg | k code]; cbn [dies_now].
   - left; reflexivity.
   - destruct (Nat.leb k sent); [right | left; reflexivity].
-    exists (CKilled sigkill). repeat split. discriminate.
+    exists (CKilled sg). repeat split. discriminate.
+  - destruct (Nat.leb k sent); [right | left; reflexivity].
+    exists (CKilled sg). repeat split. discriminate.
+  - left; reflexivity.
   - destruct (Nat.leb k sent); [right | left; reflexivity].
     exists (CExited code). repeat split. exact A.
+Qed.
+
+Lemma child_return_cases flt sent :
+  dies_at_return flt sent = None \/ exists sg, dies_at_return flt sent = Some (CKilled sg).
+Proof.
+  destruct flt as [| k sg | k sg | k sg | k code]; cbn; try (left; reflexivity).
+  destruct (Nat.leb k sent); [right; exists sg; reflexivity | left; reflexivity].
 Qed.
 
 Lemma inproc_extends fuel : forall hist tr r tr',
@@ -166,12 +216,27 @@ Proof.
   - inversion H; subst. exists []. now rewrite app_nil_r.
 Qed.
 
-Definition death (r : result) : Prop := exists c, c <> 0%Z /\ r = Raise (ExDeath c).
+(* the run ended because the child died: "terminated abnormally" with its non-zero return code, or the
+   write of an answer into a FIFO nobody reads any more *)
+Definition death (r : result) : Prop :=
+  (exists c, c <> 0%Z /\ r = Raise (ExDeath c)) \/ r = Raise ExPipe.
 
 Lemma run_dead flt n st :
   running (s_child st) = false -> returncode (s_child st) <> 0%Z ->
   run ev s flt cfg x0 (sync (S n)) st = Some (Raise (ExDeath (returncode (s_child st))), st).
 Proof. intros R C. cbn [sync repeat run]. rewrite (iter_dead flt _ st R C). reflexivity. Qed.
+
+(* after an Ask the in-process trace extends the trace that includes this callback *)
+Lemma inproc_ask_extends fuel hist tr r tr' v rf rg :
+  s cfg x0 hist = Ask v rf rg -> inproc (S fuel) ev (s cfg x0) hist tr = Some (r, tr') ->
+  exists rest, tr' = (tr ++ [mkx v rf rg (fst (ev (List.length tr) v rf rg)) (snd (ev (List.length tr) v rf rg))]) ++ rest.
+Proof.
+  intros E H. cbn [inproc] in H. rewrite E in H.
+  destruct (ev (List.length tr) v rf rg) as [res eff]. cbn [fst snd]. destruct res as [f g | c | cls].
+  - apply inproc_extends in H. exact H.
+  - inversion H; subst. exists []. now rewrite app_nil_r.
+  - inversion H; subst. exists []. now rewrite app_nil_r.
+Qed.
 
 Lemma sync_opt flt : abnormal flt -> forall fuel hist tr sent w r tr',
   inproc fuel ev (s cfg x0) hist tr = Some (r, tr') ->
@@ -181,26 +246,43 @@ Lemma sync_opt flt : abnormal flt -> forall fuel hist tr sent w r tr',
 Proof.
   intros A. induction fuel as [|fuel IH]; intros hist tr sent w r tr' H; [discriminate H|].
   pose proof (inproc_extends _ _ _ _ _ H) as EXT.
+  pose proof (fun v rf rg E => inproc_ask_extends fuel hist tr r tr' v rf rg E H) as EXA.
   cbn [inproc] in H. unfold opt_state, child_optimize.
   pose proof (s_wf hist) as SW.
   destruct (s cfg x0 hist) as [v rf rg | | m].
   - destruct (child_send_cases flt (POpt cfg x0 hist) (REval v rf rg) sent A) as [E | (c & E & R & C)]; rewrite E.
-    + cbn [sync repeat run]. rewrite (iter_eval flt hist (S sent) tr w v rf rg SW).
-      destruct (ev (List.length tr) v rf rg) as [res eff]. destruct res as [f g | c | cls].
-      * apply IH. exact H.
-      * inversion H; subst. do 2 eexists. split; [reflexivity|]. left. split; reflexivity.
-      * inversion H; subst. do 2 eexists. split; [reflexivity|]. left. split; reflexivity.
+    + destruct (dead_waiting flt (S sent)) as [sg|] eqn:DW.
+      * destruct (iter_waiting_dead flt (POpt cfg x0 hist) (REval v rf rg) (S sent) sg tr w SW DW) as (p' & IT & _ & T).
+        cbn [sync repeat run]. rewrite IT.
+        do 2 eexists. split; [reflexivity|]. right. split; [right; reflexivity|]. cbn [s_par].
+        destruct T as [T | (v' & rf' & rg' & EQ & T)]; rewrite T.
+        -- exact EXT.
+        -- inversion EQ; subst v' rf' rg'. apply (EXA v rf rg eq_refl).
+      * cbn [sync repeat run]. rewrite (iter_eval flt hist (S sent) tr w v rf rg SW DW).
+        destruct (ev (List.length tr) v rf rg) as [res eff]. destruct res as [f g | c | cls].
+        -- apply IH. exact H.
+        -- inversion H; subst. do 2 eexists. split; [reflexivity|]. left. split; reflexivity.
+        -- inversion H; subst. do 2 eexists. split; [reflexivity|]. left. split; reflexivity.
     + rewrite run_dead by assumption. do 2 eexists. split; [reflexivity|]. right. split.
-      * exists (returncode c). split; [exact C | reflexivity].
+      * left. exists (returncode c). split; [exact C | reflexivity].
       * exact EXT.
-  - inversion H; subst. cbn [sync repeat run]. rewrite iter_exit0 by reflexivity.
-    do 2 eexists. split; [reflexivity|]. left. split; reflexivity.
+  - inversion H; subst. destruct (child_return_cases flt sent) as [E | [sg E]]; rewrite E.
+    + cbn [sync repeat run]. rewrite iter_exit0 by reflexivity.
+      do 2 eexists. split; [reflexivity|]. left. split; reflexivity.
+    + rewrite run_dead by (reflexivity || discriminate). do 2 eexists. split; [reflexivity|]. right. split.
+      * left. exists (Zneg sg). split; [discriminate | reflexivity].
+      * exists []. now rewrite app_nil_r.
   - inversion H; subst.
     destruct (child_send_cases flt PError (RError m) sent A) as [E | (c & E & R & C)]; rewrite E.
-    + cbn [sync repeat run]. rewrite iter_error.
-      do 2 eexists. split; [reflexivity|]. left. split; reflexivity.
+    + destruct (dead_waiting flt (S sent)) as [sg|] eqn:DW.
+      * destruct (iter_waiting_dead flt PError (RError m) (S sent) sg tr' w eq_refl DW) as (p' & IT & _ & T).
+        cbn [sync repeat run]. rewrite IT.
+        do 2 eexists. split; [reflexivity|]. right. split; [right; reflexivity|]. cbn [s_par].
+        destruct T as [T | (v' & rf' & rg' & EQ & T)]; [|discriminate EQ]. rewrite T. exists []. now rewrite app_nil_r.
+      * cbn [sync repeat run]. rewrite (iter_error _ _ _ _ _ DW).
+        do 2 eexists. split; [reflexivity|]. left. split; reflexivity.
     + rewrite run_dead by assumption. do 2 eexists. split; [reflexivity|]. right. split.
-      * exists (returncode c). split; [exact C | reflexivity].
+      * left. exists (returncode c). split; [exact C | reflexivity].
       * exists []. now rewrite app_nil_r.
 Qed.
 
@@ -215,19 +297,32 @@ Lemma ext_run_fault flt : abnormal flt -> forall fuel r tr,
 Proof.
   intros A fuel r tr H. unfold ext_run, init. rewrite sync_two.
   destruct (child_send_cases flt PConfig RConfig 0 A) as [E | (c & E & R & C)]; rewrite E.
-  - cbn [run]. pose proof (iter_config flt 1 [] []) as IC. unfold mkp in IC. rewrite IC. clear IC.
+  - destruct (dead_waiting flt 1) as [sg|] eqn:DW1.
+    { destruct (iter_waiting_dead flt PConfig RConfig 1 sg [] [] eq_refl DW1) as (p' & IT & _ & T).
+      cbn [run]. unfold mkp in IT. rewrite IT.
+      do 2 eexists. split; [reflexivity|]. right. split; [right; reflexivity|]. cbn [s_par].
+      destruct T as [T | (v' & rf' & rg' & EQ & T)]; [|discriminate EQ]. rewrite T. exists tr. reflexivity. }
+    cbn [run]. pose proof (iter_config flt 1 [] [] DW1) as IC. unfold mkp in IC. rewrite IC. clear IC.
     destruct (child_send_cases flt (PInitial cfg) RInitial 1 A) as [E2 | (c & E2 & R & C)]; rewrite E2.
-    + cbn [run]. pose proof (iter_initial flt 2 [] ([] ++ [WR (enc_request RConfig)] ++ [WW (enc_answer (AConfig cfg))])) as II.
+    + destruct (dead_waiting flt 2) as [sg|] eqn:DW2.
+      { destruct (iter_waiting_dead flt (PInitial cfg) RInitial 2 sg []
+                    ([] ++ [WR (enc_request RConfig)] ++ [WW (enc_answer (AConfig cfg))]) eq_refl DW2) as (p' & IT & _ & T).
+        assert (F : exists k, sync fuel = Tick true true :: sync k).
+        { destruct fuel; [discriminate H | eexists; reflexivity]. }
+        destruct F as [k ->]. cbn [run]. unfold mkp in IT. cbn [app] in IT |- *. rewrite IT.
+        do 2 eexists. split; [reflexivity|]. right. split; [right; reflexivity|]. cbn [s_par].
+        destruct T as [T | (v' & rf' & rg' & EQ & T)]; [|discriminate EQ]. rewrite T. exists tr. reflexivity. }
+      cbn [run]. pose proof (iter_initial flt 2 [] ([] ++ [WR (enc_request RConfig)] ++ [WW (enc_answer (AConfig cfg))]) DW2) as II.
       unfold mkp in II. cbn [app] in II |- *. rewrite II. clear II. apply sync_opt; assumption.
     + assert (F : exists k, sync fuel = Tick true true :: sync k).
       { destruct fuel; [discriminate H | eexists; reflexivity]. }
       destruct F as [k ->]. cbn [run]. rewrite iter_dead by assumption.
       do 2 eexists. split; [reflexivity|]. right. split.
-      * exists (returncode c). split; [exact C | reflexivity].
+      * left. exists (returncode c). split; [exact C | reflexivity].
       * exists tr. reflexivity.
   - cbn [run]. rewrite iter_dead by assumption.
     do 2 eexists. split; [reflexivity|]. right. split.
-    + exists (returncode c). split; [exact C | reflexivity].
+    + left. exists (returncode c). split; [exact C | reflexivity].
     + exists tr. reflexivity.
 Qed.
 
@@ -241,14 +336,14 @@ Proof.
   cbn [inproc] in H. unfold opt_state, child_optimize.
   pose proof (s_wf hist) as SW.
   destruct (s cfg x0 hist) as [v rf rg | | m].
-  - cbn [child_send sync repeat run]. rewrite (iter_eval NoFault hist (S sent) tr w v rf rg SW).
+  - unfold child_send. cbn [dies_now sync repeat run]. rewrite (iter_eval NoFault hist (S sent) tr w v rf rg SW eq_refl).
     destruct (ev (List.length tr) v rf rg) as [res eff]. destruct res as [f g | c | cls].
     + apply IH. exact H.
     + inversion H; subst. eexists. split; reflexivity.
     + inversion H; subst. eexists. split; reflexivity.
-  - inversion H; subst. cbn [sync repeat run]. rewrite iter_exit0 by reflexivity.
+  - inversion H; subst. cbn [dies_at_return sync repeat run]. rewrite iter_exit0 by reflexivity.
     eexists. split; reflexivity.
-  - inversion H; subst. cbn [child_send sync repeat run]. rewrite iter_error.
+  - inversion H; subst. unfold child_send. cbn [dies_now sync repeat run]. rewrite (iter_error NoFault _ _ _ _ eq_refl).
     eexists. split; reflexivity.
 Qed.
 
@@ -256,10 +351,10 @@ Lemma ext_run_nofault : forall fuel r tr,
   inproc fuel ev (s cfg x0) [] [] = Some (r, tr) ->
   exists st, ext_run ev s NoFault cfg x0 (sync (fuel + 2)) = Some (r, st) /\ p_trace (s_par st) = tr.
 Proof.
-  intros fuel r tr H. unfold ext_run, init. rewrite sync_two. cbn [child_send run].
-  pose proof (iter_config NoFault 1 [] []) as IC. unfold mkp in IC. rewrite IC. clear IC.
-  cbn [child_send run].
-  pose proof (iter_initial NoFault 2 [] ([] ++ [WR (enc_request RConfig)] ++ [WW (enc_answer (AConfig cfg))])) as II.
+  intros fuel r tr H. unfold ext_run, init. rewrite sync_two. unfold child_send at 1. cbn [dies_now run].
+  pose proof (iter_config NoFault 1 [] [] eq_refl) as IC. unfold mkp in IC. rewrite IC. clear IC.
+  unfold child_send at 1. cbn [dies_now run].
+  pose proof (iter_initial NoFault 2 [] ([] ++ [WR (enc_request RConfig)] ++ [WW (enc_answer (AConfig cfg))]) eq_refl) as II.
   unfold mkp in II. cbn [app] in II |- *. rewrite II. clear II. apply sync_opt_nofault. exact H.
 Qed.
 
@@ -362,11 +457,13 @@ Proof. destruct c; reflexivity. Qed.
 
 Lemma write_part_done flt w st r st' :
   write_part s flt w st = Done r st' ->
-  exists e, r = Raise e /\ p_exn (s_par st) = Some e /\ running (s_child st') = false.
+  exists e, r = Raise e /\ running (s_child st') = false.
 Proof.
   unfold write_part. destruct (p_answer (s_par st)) as [a|]; [|discriminate].
-  destruct w; [|discriminate]. destruct (p_exn (s_par st)) as [e|].
-  - intros H; inversion H; subst. exists e. repeat split. apply terminate_not_running.
+  destruct w; [|discriminate]. destruct (pipe_broken flt (s_child st)) as [sg|].
+  { intros H; inversion H; subst. exists ExPipe. split; reflexivity. }
+  destruct (p_exn (s_par st)) as [e|].
+  - intros H; inversion H; subst. exists e. split; [reflexivity | apply terminate_not_running].
   - destruct (s_child st) as [ph req sent | c | sg]; try discriminate.
     destruct (child_recv flt s ph req sent (enc_answer a)); discriminate.
 Qed.
@@ -377,7 +474,7 @@ Lemma iter_done flt t st r st' :
   (r = Return -> st' = st /\ s_child st = CExited 0).
 Proof.
   unfold iter. destruct (running (s_child st)) eqn:R.
-  - destruct t as [rd w]. intros H. apply write_part_done in H as (e & -> & _ & NR).
+  - destruct t as [rd w]. intros H. apply write_part_done in H as (e & -> & NR).
     split; [exact NR | discriminate].
   - destruct (Z.eqb_spec (returncode (s_child st)) 0) as [E | NE]; intros H; inversion H; subst.
     + split; [exact R|]. intros _. split; [reflexivity|].
@@ -444,6 +541,7 @@ Proof.
   intros I. pose proof I as [I1 I2]. unfold write_part. destruct (p_answer (s_par st)) as [a|] eqn:A.
   2:{ intros H; inversion H; subst. exact I. }
   destruct w. 2:{ intros H; inversion H; subst. exact I. }
+  destruct (pipe_broken flt (s_child st)) as [sg0|]; [discriminate|].
   destruct (p_exn (s_par st)) as [e|] eqn:E; [discriminate|].
   assert (K : forall st1, p_exn (s_par st1) = None -> p_wire (s_par st1) = p_wire (s_par st) ++ [WW (enc_answer a)] -> inv st1).
   { intros st1 E1 W1. split; [|intros C; contradiction].
@@ -605,10 +703,15 @@ Lemma child_send_cases' flt ph req sent :
   child_send flt ph req sent = (CWaiting ph req (S sent), Some (enc_request req)) \/
   exists c, child_send flt ph req sent = (c, None) /\ running c = false.
 Proof.
-  destruct flt as [| k | k code]; cbn.
-  - left; reflexivity.
-  - destruct (Nat.leb k sent); [right | left; reflexivity]. eexists; split; reflexivity.
-  - destruct (Nat.leb k sent); [right | left; reflexivity]. eexists; split; reflexivity.
+  unfold child_send. destruct flt as [| k sg | k sg | k sg | k code]; cbn [dies_now]; try (left; reflexivity);
+    (destruct (Nat.leb k sent); [right | left; reflexivity]); eexists; split; reflexivity.
+Qed.
+
+Lemma child_return_cases' flt sent :
+  exists c, (match dies_at_return flt sent with Some c => (c, @None jv) | None => (CExited 0, None) end) = (c, None) /\
+            running c = false.
+Proof.
+  destruct (child_return_cases flt sent) as [E | [sg E]]; rewrite E; eexists; split; reflexivity.
 Qed.
 
 Lemma run_not_running ev s flt cfg x0 n st :
@@ -625,15 +728,26 @@ Lemma script_sync ev sc flt cfg x0 :
   exists res, run ev (script_strategy sc) flt cfg x0 (sync (S n))
                   (opt_state (script_strategy sc) cfg x0 flt hist sent tr w) = Some res.
 Proof.
-  intros SW EW. induction n as [|n IH]; intros hist tr sent w L; unfold opt_state, child_optimize;
+  intros SW EW.
+  assert (STOP : forall n sent tr w,
+    exists res, run ev (script_strategy sc) flt cfg x0 (sync (S n))
+      (let (c, out) := match dies_at_return flt sent with Some c => (c, @None jv) | None => (CExited 0, None) end in
+       {| s_par := mkp None None tr w; s_child := c; s_c2p := out |}) = Some res).
+  { intros n sent tr w. destruct (child_return_cases' flt sent) as (c & -> & R).
+    destruct (run_not_running ev (script_strategy sc) flt cfg x0 n
+                {| s_par := mkp None None tr w; s_child := c; s_c2p := None |} R) as [r K].
+    eexists; exact K. }
+  induction n as [|n IH]; intros hist tr sent w L; unfold opt_state, child_optimize;
     change (script_strategy sc cfg x0 hist) with (nth (List.length hist) sc Stop).
-  - rewrite nth_overflow by (cbn in L; lia).
-    cbn [sync repeat run]. rewrite iter_exit0 by reflexivity. eexists; reflexivity.
+  - rewrite nth_overflow by (cbn in L; lia). apply STOP.
   - pose proof (nth_wf sc (List.length hist) SW) as W.
     destruct (nth (List.length hist) sc Stop) as [v rf rg | | m].
     + destruct (child_send_cases' flt (POpt cfg x0 hist) (REval v rf rg) sent) as [E | (c & E & R)]; rewrite E.
       * change (sync (S (S n))) with (Tick true true :: sync (S n)). cbn [run].
-        rewrite (iter_eval ev (script_strategy sc) cfg x0 EW flt hist (S sent) tr w v rf rg W).
+        destruct (dead_waiting flt (S sent)) as [sg|] eqn:DW.
+        { destruct (iter_waiting_dead ev (script_strategy sc) cfg x0 flt (POpt cfg x0 hist) (REval v rf rg) (S sent) sg tr w W DW)
+            as (p' & IT & _). rewrite IT. eexists; reflexivity. }
+        rewrite (iter_eval ev (script_strategy sc) cfg x0 EW flt hist (S sent) tr w v rf rg W DW).
         destruct (ev (List.length tr) v rf rg) as [res eff]. destruct res as [f g | c | cls].
         -- apply IH. rewrite app_length. cbn. lia.
         -- eexists; reflexivity.
@@ -641,9 +755,13 @@ Proof.
       * destruct (run_not_running ev (script_strategy sc) flt cfg x0 (S n)
                     {| s_par := mkp None None tr w; s_child := c; s_c2p := None |} R) as [r K].
         eexists; exact K.
-    + cbn [sync repeat run]. rewrite iter_exit0 by reflexivity. eexists; reflexivity.
+    + apply STOP.
     + destruct (child_send_cases' flt PError (RError m) sent) as [E | (c & E & R)]; rewrite E.
-      * cbn [sync repeat run]. rewrite iter_error. eexists; reflexivity.
+      * cbn [sync repeat run].
+        destruct (dead_waiting flt (S sent)) as [sg|] eqn:DW.
+        { destruct (iter_waiting_dead ev (script_strategy sc) cfg x0 flt PError (RError m) (S sent) sg tr w eq_refl DW)
+            as (p' & IT & _). rewrite IT. eexists; reflexivity. }
+        rewrite (iter_error ev (script_strategy sc) cfg x0 flt _ _ _ _ DW). eexists; reflexivity.
       * destruct (run_not_running ev (script_strategy sc) flt cfg x0 (S n)
                     {| s_par := mkp None None tr w; s_child := c; s_c2p := None |} R) as [r K].
         eexists; exact K.
@@ -658,11 +776,18 @@ Proof.
   replace (List.length sc + 3) with (S (S (S (List.length sc)))) by lia.
   destruct (child_send_cases' flt PConfig RConfig 0) as [E | (c & E & R)]; rewrite E.
   - change (sync (S (S (S (List.length sc))))) with (Tick true true :: sync (S (S (List.length sc)))). cbn [run].
-    pose proof (iter_config ev (script_strategy sc) cfg x0 flt 1 [] []) as IC. unfold mkp in IC. rewrite IC. clear IC.
+    destruct (dead_waiting flt 1) as [sg|] eqn:DW1.
+    { destruct (iter_waiting_dead ev (script_strategy sc) cfg x0 flt PConfig RConfig 1 sg [] [] eq_refl DW1) as (p' & IT & _).
+      unfold mkp in IT. rewrite IT. eexists; reflexivity. }
+    pose proof (iter_config ev (script_strategy sc) cfg x0 flt 1 [] [] DW1) as IC. unfold mkp in IC. rewrite IC. clear IC.
     destruct (child_send_cases' flt (PInitial cfg) RInitial 1) as [E2 | (c & E2 & R)]; rewrite E2.
     + change (sync (S (S (List.length sc)))) with (Tick true true :: sync (S (List.length sc))). cbn [run].
+      destruct (dead_waiting flt 2) as [sg|] eqn:DW2.
+      { destruct (iter_waiting_dead ev (script_strategy sc) cfg x0 flt (PInitial cfg) RInitial 2 sg []
+                    ([] ++ [WR (enc_request RConfig)] ++ [WW (enc_answer (AConfig cfg))]) eq_refl DW2) as (p' & IT & _).
+        unfold mkp in IT. cbn [app] in IT |- *. rewrite IT. eexists; reflexivity. }
       pose proof (iter_initial ev (script_strategy sc) cfg x0 flt 2 []
-                    ([] ++ [WR (enc_request RConfig)] ++ [WW (enc_answer (AConfig cfg))])) as II.
+                    ([] ++ [WR (enc_request RConfig)] ++ [WW (enc_answer (AConfig cfg))]) DW2) as II.
       unfold mkp in II. cbn [app] in II |- *. rewrite II. clear II.
       apply script_sync; [exact SW | exact EW | cbn; lia].
     + match goal with |- exists res, run _ _ _ _ _ _ ?st = _ =>
